@@ -74,4 +74,66 @@ def mstepPlane (n1 n2 : α) (r : MRay α) : MRay α × α :=
   let (M', N') := mrefract n1 n2 r.M r.N 0 1
   (⟨y, z, M', N'⟩, t)
 
+/-! ### whole-lens meridional trace (rotationally symmetric lens: every `cs` is a pure z-shift)
+
+`mtrace` mirrors `traceLens`/`traceSurf` of `Model/Real.lean` for one meridional ray:
+`Cs.localize` = `translate(0, 0, -cs.z)` (the rotations are skipped because `rx = ry = rz = 0`
+is falsy), distance, propagate, interact (refract / reflect at the conic or plane normal;
+nothing at the image surface), `Cs.globalize` = `translate(0, 0, +cs.z)`.  The recorded rays
+are in global coordinates, as in `SurfaceGroup.trace`.  Intensity, OPD and the aperture clip
+do not act on the geometry of the ray and are left out. -/
+
+/-- reflection at a plane (normal (0,0,1)) -/
+def mstepPlaneMirror (r : MRay α) : MRay α × α :=
+  let t := maskNeg (-r.z / r.N) (Num.zero / Num.zero)
+  let y := r.y + t * r.M
+  let z := r.z + t * r.N
+  let (M', N') := mreflect r.M r.N 0 1
+  (⟨y, z, M', N'⟩, t)
+
+/-- the image surface: a plane without interaction -/
+def mstepImage (r : MRay α) : MRay α × α :=
+  let t := maskNeg (-r.z / r.N) (Num.zero / Num.zero)
+  (⟨r.y + t * r.M, r.z + t * r.N, r.M, r.N⟩, t)
+
+inductive MKind where
+  | object | conic | conicMirror | plane | planeMirror | image
+deriving DecidableEq, Repr, Inhabited
+
+/-- what the meridional tracer reads from one surface of a rotationally symmetric lens -/
+structure MSurf (α : Type) where
+  kind : MKind
+  /-- `geometry.cs.z`: the vertex position -/
+  z : α
+  /-- conic constant (unused for planes) -/
+  k : α
+  /-- radius of curvature (unused for planes) -/
+  R : α
+  n1 : α
+  n2 : α
+
+/-- propagate + interact in the local frame of the surface -/
+def mstepLocal (s : MSurf α) (rl : MRay α) : MRay α :=
+  match s.kind with
+  | .object => rl
+  | .conic => (mstep s.k s.R s.n1 s.n2 rl).1
+  | .conicMirror => (mstepMirror s.k s.R rl).1
+  | .plane => (mstepPlane s.n1 s.n2 rl).1
+  | .planeMirror => (mstepPlaneMirror rl).1
+  | .image => (mstepImage rl).1
+
+/-- `Surface._trace_real` for one meridional ray: localize, step, globalize
+(`ObjectSurface.trace` only records the ray) -/
+def mstepSurf (s : MSurf α) (r : MRay α) : MRay α :=
+  match s.kind with
+  | .object => r
+  | _ =>
+    let o := mstepLocal s ⟨r.y, r.z + (-s.z), r.M, r.N⟩
+    ⟨o.y, o.z + s.z, o.M, o.N⟩
+
+/-- `SurfaceGroup.trace` for one meridional ray: the per-surface records -/
+def mtrace : MRay α → List (MSurf α) → List (MRay α)
+  | _, [] => []
+  | r, s :: ss => let r' := mstepSurf s r; r' :: mtrace r' ss
+
 end Model
